@@ -73,7 +73,15 @@ func C08Reflect() {
 		var buf bytes.Buffer
 		sym.Assert(NewEncoder(nil, &buf).Encode(v) == nil, "encode-ok")
 		enc = buf.Bytes()
-		decode = func(r io.Reader) error { var back zzTrailingValue; return NewDecoder(nil, r).Decode(&back) }
+		// the destination is fresh, or a holder that still contains the value of an earlier decode
+		reused := sym.Bool("destination-already-holds-a-value")
+		decode = func(r io.Reader) error {
+			var back zzTrailingValue
+			if reused {
+				back.V = value.String("earlier")
+			}
+			return NewDecoder(nil, r).Decode(&back)
+		}
 		label = "truncated-struct-with-trailing-value"
 	case 0:
 		var v zzMixed
